@@ -388,6 +388,91 @@ theorem groupEdges_node_chain (rp : List BP) (pre mid post : List (List BP)) (ns
         simpa [List.append_assoc] using this
 
 
+/-! ### reachability along a line -/
+
+/-- reachability along the edges `E` of one line -/
+inductive Reach (E : List (BP × BP)) : BP → BP → Prop
+  | refl (a : BP) : Reach E a a
+  | step {a b c : BP} : (a, b) ∈ E → Reach E b c → Reach E a c
+
+theorem Reach.trans {E : List (BP × BP)} {a b c : BP} (h1 : Reach E a b) (h2 : Reach E b c) : Reach E a c := by
+  induction h1 with
+  | refl _ => exact h2
+  | step he _ ih => exact Reach.step he (ih h2)
+
+theorem filter_length_lt {α} (l : List α) (P Q : α → Bool) (hPQ : ∀ x, P x = true → Q x = true)
+    (c : α) (hc : c ∈ l) (hq : Q c = true) (hp : P c = false) :
+    (l.filter P).length < (l.filter Q).length := by
+  induction l with
+  | nil => simp at hc
+  | cons a r ih =>
+    have hle : (r.filter P).length ≤ (r.filter Q).length := by
+      clear ih hc
+      induction r with
+      | nil => simp
+      | cons b r' ih' =>
+        simp only [List.filter_cons]
+        cases hb : P b
+        · cases hqb : Q b <;> simp <;> omega
+        · simp [hPQ b hb]; omega
+    rcases List.mem_cons.mp hc with rfl | hc'
+    · simp only [List.filter_cons, hq, hp]
+      simp; omega
+    · have := ih hc'
+      simp only [List.filter_cons]
+      cases ha : P a
+      · cases hqa : Q a <;> simp <;> omega
+      · simp [hPQ a ha]; omega
+
+/-- on a sorted breakpoint list: from `a` one reaches every higher breakpoint `b` along the line, provided
+    the breakpoints strictly between them are dummy vertices and the flags of `a` / `b` allow the first /
+    last step -/
+theorem line_reach {bps : List BP} (hs : SortedBP bps) : ∀ (n : Nat) (a b : BP), a ∈ bps → b ∈ bps → a.t < b.t →
+    (a.k.isConn = true → a.up = true) → (b.k.isConn = true → b.dn = true) →
+    (∀ c ∈ bps, a.t < c.t → c.t < b.t → c.k.isConn = false) →
+    (bps.filter fun c => decide (a.t < c.t) && decide (c.t < b.t)).length ≤ n →
+    Reach (lineEdges bps) a b := by
+  intro n
+  induction n with
+  | zero =>
+    intro a b ha hb hab fa fb _ hn
+    have hnil : (bps.filter fun c => decide (a.t < c.t) && decide (c.t < b.t)) = [] := List.eq_nil_of_length_eq_zero (by omega)
+    have hno : ∀ c ∈ bps, ¬ (a.t < c.t ∧ c.t < b.t) := by
+      intro c hc hcc
+      have : c ∈ (bps.filter fun c => decide (a.t < c.t) && decide (c.t < b.t)) :=
+        List.mem_filter.mpr ⟨hc, by simp [hcc.1, hcc.2]⟩
+      rw [hnil] at this; simp at this
+    exact Reach.step (lineEdges_adjacent hs ha hb hab hno fa fb) (Reach.refl b)
+  | succ n ih =>
+    intro a b ha hb hab fa fb hmid hn
+    by_cases hex : ∃ c ∈ bps, a.t < c.t ∧ c.t < b.t
+    · obtain ⟨c, hc, hac, hcb⟩ := hex
+      have hcn : c.k.isConn = false := hmid c hc hac hcb
+      have fc1 : c.k.isConn = true → c.up = true := by intro h; rw [hcn] at h; cases h
+      have fc2 : c.k.isConn = true → c.dn = true := by intro h; rw [hcn] at h; cases h
+      have l1 : (bps.filter fun d => decide (a.t < d.t) && decide (d.t < c.t)).length <
+          (bps.filter fun d => decide (a.t < d.t) && decide (d.t < b.t)).length := by
+        apply filter_length_lt bps _ _ _ c hc
+        · simp [hac, hcb]
+        · simp
+        · intro x hx
+          simp only [Bool.and_eq_true, decide_eq_true_eq] at hx ⊢
+          exact ⟨hx.1, by grind⟩
+      have l2 : (bps.filter fun d => decide (c.t < d.t) && decide (d.t < b.t)).length <
+          (bps.filter fun d => decide (a.t < d.t) && decide (d.t < b.t)).length := by
+        apply filter_length_lt bps _ _ _ c hc
+        · simp [hac, hcb]
+        · simp
+        · intro x hx
+          simp only [Bool.and_eq_true, decide_eq_true_eq] at hx ⊢
+          exact ⟨by grind, hx.2⟩
+      have r1 := ih a c ha hc hac fa fc2 (fun d hd h1 h2 => hmid d hd h1 (by grind)) (by omega)
+      have r2 := ih c b hc hb hcb fc1 fb (fun d hd h1 h2 => hmid d hd (by grind) h2) (by omega)
+      exact r1.trans r2
+    · have hno : ∀ c ∈ bps, ¬ (a.t < c.t ∧ c.t < b.t) := fun c hc hcc => hex ⟨c, hc, hcc⟩
+      exact Reach.step (lineEdges_adjacent hs ha hb hab hno fa fb) (Reach.refl b)
+
+
 /-! ### flags of the breakpoints -/
 
 theorem dirsX_up {conns : List Conn} {i : Nat} (h : (dirsX conns (.conn i)).2 = true) :
